@@ -265,12 +265,24 @@ def write_error_code(buffer: Writable, error_code: ErrorCode) -> None:
     write_int16(buffer, error_code.value)
 
 
+_one_millisecond: Final = datetime.timedelta(milliseconds=1)
+
+
+def _round_to_milliseconds(value: datetime.timedelta) -> int:
+    # Use exact integer arithmetic, float conversion loses precision for large values.
+    quotient, remainder = divmod(value, _one_millisecond)
+    doubled = 2 * remainder
+    if doubled > _one_millisecond or (doubled == _one_millisecond and quotient % 2):
+        return quotient + 1
+    return quotient
+
+
 def write_timedelta_i32(buffer: Writable, value: i32Timedelta) -> None:
-    write_int32(buffer, round(value.total_seconds() * 1000))  # type: ignore[arg-type]
+    write_int32(buffer, _round_to_milliseconds(value))  # type: ignore[arg-type]
 
 
 def write_timedelta_i64(buffer: Writable, value: i64Timedelta) -> None:
-    write_int64(buffer, round(value.total_seconds() * 1000))  # type: ignore[arg-type]
+    write_int64(buffer, _round_to_milliseconds(value))  # type: ignore[arg-type]
 
 
 def write_datetime_i64(buffer: Writable, value: datetime.datetime) -> None:
